@@ -87,7 +87,7 @@ def run_model_instances(run, mc_module, monitor, instances, variants=None, kinds
         if res.violated:
             raise pipeline.MachineryFailure(
                 'the monitor %s rejects a behaviour of the model (%s, instance %s): model and monitor disagree\n%s\n%s'
-                % (monitor, res.violated, inst['label'], [t for t in res.tuples if 'MODEL-REJECT' in t][:3], _last_obs(res.raw)))
+                % (monitor, res.violated, inst['label'], [t for t in res.lines if isinstance(t, str) and 'MODEL-REJECT' in t][:3], _last_obs(res.raw)))
         if inst.get('simulate'):
             seen = set()
             uniq = []
@@ -188,7 +188,7 @@ def standard_replay(prop, monitor, kinds, path, post=None, judge_field='.tr'):
 WRAPPER = """---- MODULE %(name)s ----
 EXTENDS MC_Sess, %(monitor)s
 MonPrefix == TRUE
-MonFinal == pc = "done" => (%(verdict)s = "ok" \\/ (PrintT(<<"MODEL-REJECT", %(verdict)s>>) /\\ FALSE))
+MonFinal == pc = "done" => (%(verdict)s = "ok" \\/ (PrintT("MODEL-REJECT " \\o %(verdict)s) /\\ FALSE))
 ====
 """
 
